@@ -21,6 +21,7 @@ import (
 	"sort"
 	"strconv"
 	"strings"
+	"time"
 	"unicode/utf8"
 
 	"github.com/martian-lang/martian/martian/syntax"
@@ -719,6 +720,9 @@ func runC09(c *Ctx) {
 
 	// ---- 4. include graphs ----
 	c09Includes(c)
+
+	// ---- 5. expanded rendering of COMPILED programs (what mrp records as _mrosource) ----
+	c09Expanded(c)
 }
 
 func c09CheckFormatReportOnly(c *Ctx, src []byte, path, origin string, strict bool, key string) {
@@ -1152,4 +1156,192 @@ func c09Includes(c *Ctx) {
 			}
 		}()
 	}
+}
+
+// ---------- expanded rendering of compiled programs ----------
+
+// c09GenCompiling produces a well-typed program in four parts (types, stages, pipelines,
+// top call) exercising everything the compiler rewrites in the AST: wildcard bindings
+// (alone / after explicit bindings / over self, a stage, a struct input, a struct output),
+// aliases, keyword and bound modifiers, disabled, map calls, calls out of dependency order.
+func c09GenCompiling(c *Ctx) (types, stages, pipes, call string, features []string) {
+	rng := c.Rng
+	pick := func(name string, xs ...string) string {
+		i := rng.Intn(len(xs))
+		features = append(features, fmt.Sprintf("%s%d", name, i))
+		return xs[i]
+	}
+	types = "filetype txt;\n\n# a pair\nstruct PAIR(\n    int a \"the a\",\n    txt b,\n)\n"
+	res := pick("res", "", ") using (\n    mem_gb  = 2,\n    threads = 1,\n", ") using (\n    volatile = strict,\n")
+	stages = "stage MAKE(\n    in  int  seed,\n    in  int  n,\n    in  int  k,\n    out int  v,\n    out PAIR p,\n    out bool ok,\n    src py   \"stages/make\",\n" + res + ")\n\n" +
+		"# uses things\nstage USE(\n    in  int  v,\n    in  PAIR p,\n    in  int  seed,\n    out int  r,\n    src comp \"bin/use -x --k=v\",\n)\n\n" +
+		"stage FIELDS(\n    in  int a,\n    in  txt b,\n    in  int k,\n    out int z,\n    src py  \"stages/fields\",\n) split (\n    in  int chunk,\n    out int part,\n)\n"
+	mk := pick("make", "MAKE", "MAKE as M")
+	mkId := "MAKE"
+	if strings.Contains(mk, " as ") {
+		mkId = "M"
+	}
+	b1 := pick("b1", "        k = 1,\n        * = self,\n", "        k = self.n,\n        * = self,\n",
+		"        seed = self.seed,\n        n    = self.n,\n        k    = 3,\n", "        k = 7,\n        * = self,\n")
+	b2 := pick("b2", "        seed = self.seed,\n        *    = "+mkId+",\n", "        v = "+mkId+".v,\n        * = self,\n",
+		"        v    = "+mkId+".v,\n        p    = "+mkId+".p,\n        seed = self.seed,\n", "        seed = 3,\n        *    = "+mkId+",\n",
+		"        v = 4,\n        * = self,\n")
+	b3 := pick("b3", "        k = 1,\n        * = self.p,\n", "        k = 2,\n        * = "+mkId+".p,\n", "        a = self.p.a,\n        b = self.p.b,\n        k = 3,\n",
+		"        k = "+mkId+".v,\n        * = self.p,\n")
+	kw := pick("kw", "", "local ", "volatile ", "local volatile ")
+	useMods := pick("usemods", "", " using (\n        volatile = true,\n    )", " using (\n        disabled = "+mkId+".ok,\n    )", " using (\n        local    = true,\n        disabled = "+mkId+".ok,\n    )")
+	callMake := "    # make it\n    call " + kw + mk + "(\n" + b1 + "    )\n"
+	callUse := "    call USE(\n" + b2 + "    )" + useMods + "\n"
+	callFields := "    call FIELDS(\n" + b3 + "    )\n"
+	order := pick("order", "mu", "um", "fum", "ufm")
+	var body string
+	for _, ch := range order {
+		switch ch {
+		case 'm':
+			body += callMake + "\n"
+		case 'u':
+			body += callUse + "\n"
+		case 'f':
+			body += callFields + "\n"
+		}
+	}
+	if !strings.Contains(order, "f") {
+		body += callFields + "\n"
+	}
+	inner := "pipeline INNER(\n    in  int  seed,\n    in  int  n,\n    in  PAIR p,\n    out int  r,\n    out int  z,\n    out PAIR q,\n)\n{\n" + body +
+		"    return (\n        r = USE.r,\n        z = FIELDS.z,\n        q = self.p,\n    )\n" + pick("retain", "", "\n    retain (\n        "+mkId+".p,\n    )\n") + "}\n\n"
+	mapped := ""
+	mapCall := ""
+	mapRet := ""
+	mapOut := ""
+	if pick("map", "n", "y") == "y" {
+		mapped = "pipeline MAPPED(\n    in  int[] vs,\n    in  PAIR  p,\n    in  int   seed,\n    out int[] rs,\n)\n{\n    map call USE(\n        v = split self.vs,\n        * = self,\n    )\n\n    return (\n        rs = USE.r,\n    )\n}\n\n"
+		mapCall = "    call MAPPED(\n        vs = [\n            1,\n            2,\n        ],\n        * = self,\n    )\n\n"
+		mapRet = "        rs = MAPPED.rs,\n"
+		mapOut = "    out int[] rs,\n"
+	}
+	t1 := pick("top", "        * = self,\n", "        seed = self.seed,\n        n    = self.n,\n        p    = self.p,\n")
+	pipes = inner + mapped + "# the top\npipeline TOP(\n    in  int  seed,\n    in  int  n,\n    in  PAIR p,\n    out int  r,\n" + mapOut + ")\n{\n    call INNER(\n" + t1 + "    )\n\n" + mapCall +
+		"    return (\n        r = INNER.r,\n" + mapRet + "    )\n}\n"
+	call = "call TOP(\n    seed = 1,\n    n    = 2,\n    p    = {\n        a: 1,\n        b: \"/x y\",\n    },\n)\n"
+	return
+}
+
+func c09Expanded(c *Ctx) {
+	r := c.Res
+	n := 150
+	if c.Thorough {
+		n = 5000
+	}
+	dir := filepath.Join(c.Scratch, "exp")
+	noCompile := 0
+	tStart := time.Now()
+	for i := 0; i < n; i++ {
+		types, stages, pipes, call, feats := c09GenCompiling(c)
+		single := types + "\n" + stages + "\n" + pipes + "\n" + call
+		multi := map[string]string{
+			"lib/types.mro":  types,
+			"lib/stages.mro": "@include \"lib/types.mro\"\n\n" + stages,
+			"pipes.mro":      "@include \"lib/stages.mro\"\n\n" + pipes,
+			"main.mro":       "@include \"pipes.mro\"\n\n" + call,
+		}
+		for _, f := range feats {
+			r.hist("compiled-feature:" + f)
+		}
+		for variant := 0; variant < 2; variant++ {
+			os.RemoveAll(dir)
+			os.MkdirAll(filepath.Join(dir, "lib"), 0o755)
+			var top string
+			var src []byte
+			var inc []string
+			name := "single-file"
+			if variant == 0 {
+				top = filepath.Join(dir, "single.mro")
+				src = []byte(single)
+				os.WriteFile(top, src, 0o644)
+			} else {
+				name = "multi-file"
+				for rel, content := range multi {
+					os.WriteFile(filepath.Join(dir, rel), []byte(content), 0o644)
+				}
+				top = filepath.Join(dir, "main.mro")
+				src = []byte(multi["main.mro"])
+				inc = []string{dir}
+			}
+			r.count("compiled:"+name+":"+single, true)
+			r.hist("compiled-program:" + name)
+			input := map[string]interface{}{"variant": name, "program": single, "features": feats}
+			func() {
+				defer func() {
+					if x := recover(); x != nil {
+						r.violate(Violation{Kind: "property", Key: "C09:expanded-panic", What: fmt.Sprint("panic compiling / rendering a generated program: ", x), Input: input})
+					}
+				}()
+				combined, _, ast, err := syntax.ParseSourceBytes(src, top, inc, false)
+				if err != nil {
+					noCompile++
+					if noCompile <= 3 {
+						r.violate(Violation{Kind: "correspondence", Key: "C09:expanded-generator-does-not-compile",
+							What: "harness-generated program does not compile (generator defect): " + err.Error(), Input: input})
+					}
+					return
+				}
+				input["rendering"] = combined
+				alone := filepath.Join(c.Scratch, "rendered.mro")
+				_, _, ast2, err := syntax.ParseSourceBytes([]byte(combined), alone, nil, false)
+				if err != nil {
+					r.violate(Violation{Kind: "property", Key: "C09:mrosource-does-not-compile",
+						What:  "the rendering of the compiled program (what mrp records as _mrosource) does not compile on its own: " + err.Error(),
+						Input: input})
+					return
+				}
+				strip := func(d []string) []string {
+					var o []string
+					for _, l := range d {
+						if !strings.HasPrefix(l, "include ") {
+							o = append(o, l)
+						}
+					}
+					return o
+				}
+				if diff := c09DiffDump(strip(c09Dump(ast, true)), c09Dump(ast2, true)); diff != "" {
+					r.violate(Violation{Kind: "property", Key: "C09:mrosource-not-equivalent",
+						What: "the rendering of the compiled program denotes a different program: " + diff, Input: input})
+				}
+				if !ast.EquivalentCall(ast2) {
+					r.violate(Violation{Kind: "property", Key: "C09:mrosource-call-not-equivalent",
+						What: "EquivalentCall(compiled AST, AST of its rendering) is false", Input: input})
+				}
+				// the compile steps must not leak into the text: for a single file the rendering of the
+				// compiled AST is the canonical format of the source
+				if variant == 0 {
+					if want, err, pan := c09Format(src, top); err == nil && pan == "" && want != combined {
+						r.violate(Violation{Kind: "property", Key: "C09:compiled-rendering-differs-from-format",
+							What:  "rendering a compiled single-file program differs from formatting its source: a compile step leaked into the text",
+							Input: input, Impl: combined, Expect: want})
+					}
+				}
+				// rendering the rendering: fixed point, comments kept
+				combined2, _, _, err := syntax.ParseSourceBytes([]byte(combined), alone, nil, false)
+				if err == nil && c09NoBlank(combined2) != c09NoBlank(combined) {
+					r.violate(Violation{Kind: "property", Key: "C09:mrosource-not-fixed-point",
+						What: "rendering the compiled rendering again changes it (beyond blank lines)", Input: input, Impl: combined2})
+				}
+				want := c09Comments([]byte(single))
+				got := strings.Join(c09Comments([]byte(combined)), "\n")
+				for _, cm := range want {
+					if !strings.Contains(got, cm) {
+						r.violate(Violation{Kind: "property", Key: "C09:mrosource-comment-lost", What: "comment missing from the rendering: " + cm, Input: input})
+					}
+				}
+			}()
+		}
+		if i%53 == 0 {
+			r.sample(map[string]interface{}{"compiled_program": single, "features": feats})
+		}
+	}
+	if noCompile > 0 {
+		r.note("%d generated programs did not compile", noCompile)
+	}
+	r.note("compiled-rendering stream: %d programs x 2 variants in %.1fs", n, time.Since(tStart).Seconds())
 }
